@@ -1,6 +1,7 @@
 import Gaftools.Props.TieA5
 import Gaftools.Props.TieA
 import Gaftools.Props.TieA9
+import Gaftools.Props.TieA12
 #print axioms Gaftools.TieA.eDir_gen_eq_model
 #print axioms Gaftools.TieA.addEdge_gen
 #print axioms Gaftools.TieA.removeEdge_gen
@@ -8,3 +9,22 @@ import Gaftools.Props.TieA9
 #print axioms Gaftools.TieA.bstep_framesOk
 #print axioms Gaftools.TieA.bgo_gen
 #print axioms Gaftools.TieA.biccsFrom_gen
+#print axioms Gaftools.TieA.whileFuel_done
+#print axioms Gaftools.TieA.whileFuel_more
+#print axioms Gaftools.TieA.fold_push
+#print axioms Gaftools.TieA.fcStep_eq
+#print axioms Gaftools.TieA.fcCond_eq
+#print axioms Gaftools.TieA.findCompLoop_cons
+#print axioms Gaftools.TieA.findCompLoop_step
+#print axioms Gaftools.TieA.fcLoop_gen
+#print axioms Gaftools.TieA.findComponent_gen
+#print axioms Gaftools.TieA.acFold_gen
+#print axioms Gaftools.TieA.allComponents_gen
+#print axioms Gaftools.TieA.allComponents_gen'
+#print axioms Gaftools.TieA.fold_pushAll
+#print axioms Gaftools.TieA.dfsStep_eq
+#print axioms Gaftools.TieA.dfsCond_eq
+#print axioms Gaftools.TieA.dfsLoop_cons
+#print axioms Gaftools.TieA.dfsLoop_step
+#print axioms Gaftools.TieA.dfsLoop_gen
+#print axioms Gaftools.TieA.dfs_gen
